@@ -56,6 +56,7 @@ type lrOut struct {
 	Gor     *int          `json:"goroutines_left,omitempty"`
 	Stdout  string        `json:"stdout,omitempty"`
 	Trace   []traceEv     `json:"trace,omitempty"`
+	DumpOK  *bool         `json:"dump_stable,omitempty"` // mode dump: dump(f) == dump(f) and dump(load(dump(f))) == dump(f)
 	Alloc   uint64        `json:"alloc_bytes,omitempty"` // Go heap bytes allocated while the case ran (MemStats.TotalAlloc delta)
 	WallMs  int64         `json:"wall_ms,omitempty"`
 }
@@ -212,6 +213,16 @@ func runLuaCase(c *lrCase) (o lrOut) {
 			if c.Mode == "dump2" {
 				n = 2
 			}
+			var prevBin []string
+			defer func() {
+				// dumping the reloaded function must give the same bytes again
+				if len(prevBin) == 2 {
+					same := prevBin[0] == prevBin[1]
+					if o.DumpOK == nil || *o.DumpOK {
+						o.DumpOK = &same
+					}
+				}
+			}()
 			for i := 0; i < n; i++ {
 				dump, e := rt.Index(t, rt.TableValue(r.GlobalEnv()), rt.StringValue("string"))
 				if e != nil {
@@ -225,6 +236,13 @@ func runLuaCase(c *lrCase) (o lrOut) {
 				if e != nil {
 					return e
 				}
+				if bin2, e2 := rt.Call1(t, dumpf, fv); e2 == nil {
+					same := bin.AsString() == bin2.AsString()
+					if o.DumpOK == nil || *o.DumpOK {
+						o.DumpOK = &same
+					}
+				}
+				prevBin = append(prevBin, bin.AsString())
 				loadf, _ := rt.Index(t, rt.TableValue(r.GlobalEnv()), rt.StringValue("load"))
 				term := rt.NewTerminationWith(nil, 0, true)
 				if e := rt.Call(t, loadf, []rt.Value{bin, rt.StringValue(name), rt.StringValue("b")}, term); e != nil {
